@@ -412,6 +412,9 @@ func runConc(args []string) string {
 		if err != nil {
 			return "skip"
 		}
+		// a self-referential value (a dict reached through the memo inside itself) cannot be encoded:
+		// Encode recurses without end (as encoding/json does); such values are only read
+		cyclic := strings.Contains(" "+dumpVal(shared), " ^")
 		for i := 0; i < n; i++ {
 			proto := i % 6
 			work[i] = func() string {
@@ -427,6 +430,9 @@ func runConc(args []string) string {
 					out += "|" + strings.Join(gets, "|")
 				}
 				var b bytes.Buffer
+				if cyclic {
+					return out + "#cyclic"
+				}
 				if err := ogorek.NewEncoderWithConfig(&b, &ogorek.EncoderConfig{Protocol: proto}).Encode(shared); err == nil {
 					d2, _ := ogorek.NewDecoderWithConfig(&b, cfg).Decode()
 					out += "#" + dumpVal(d2)
